@@ -10,6 +10,13 @@ if __name__ == "__main__":
     runner.setup_paths()
     from vlib import simcase, canon
 
-    spec = json.load(open(sys.argv[1]))
-    b, res = simcase.run_spec(spec, check_domain=False)
+    d = json.load(open(sys.argv[1]))
+    if "spec" in d and "comps" not in d:
+        from props import c08
+
+        simcase.quiet()
+        b = c08.build_project(d["spec"], d.get("scen"), d.get("partial"))
+        res, _ = simcase.two_step(b["P"], b["ps"], b["progset"], b["instructions"])
+    else:
+        b, res = simcase.run_spec(d, check_domain=False)
     print("DIGEST " + canon.result_digest(res))
